@@ -98,17 +98,18 @@ func C20rounding(p *load.Program, run *report.Run) {
 }
 
 var keptState = map[string]string{
-	"ot.COT.iknpS":           "the extension sender is created once per initialised instance by design; its stream state is decided by prg-lockstep and mitccrh-schedule",
-	"ot.COT.iknpR":           "as iknpS",
-	"ot.ROT.iknpS":           "as COT.iknpS",
-	"ot.ROT.iknpR":           "as COT.iknpS",
-	"circuit.Streaming.tmp":  "the temporary wire store is grown on demand and reused by every streamed circuit; stream-garble-forms reads every slot as stale before it is written",
-	"circuit.StreamEval.tmp": "as Streaming.tmp on the evaluator side (stream-eval-forms)",
-	"gmw.Network.output":     "set by the first received output share of a run and XOR-accumulated; the share algebra rule (output-reconstruction) decides its value from the statement that resets it in run",
+	"ot.COT.iknpS":               "the extension sender is created once per initialised instance by design; its stream state is decided by prg-lockstep and mitccrh-schedule",
+	"ot.COT.iknpR":               "as iknpS",
+	"ot.ROT.iknpS":               "as COT.iknpS",
+	"ot.ROT.iknpR":               "as COT.iknpS",
+	"circuit.Streaming.tmp":      "the temporary wire store is grown on demand and reused by every streamed circuit; stream-garble-forms reads every slot as stale before it is written",
+	"circuit.StreamEval.tmp":     "as Streaming.tmp on the evaluator side (stream-eval-forms)",
+	"circuit.Circuit.garblePool": "the per-circuit pool of garbling scratch; what a pooled scratch holds is decided by put-at-most-once, release-escape, the stale-scratch atoms of the garbling forms and pool-publications",
+	"gmw.Network.output":         "set by the first received output share of a run and XOR-accumulated; the share algebra rule (output-reconstruction) decides its value from the statement that resets it in run",
 }
 
 func keptStateRule(p *load.Program, run *report.Run, pkgs []string) {
-	run.Rule("kept-state-inventory", "every reference-typed field that a method of the package creates on first use and keeps (if x.f == nil / len(x.f) != n { x.f = ... }) is in the inventory of kept state with the rule that covers its contents; an unlisted one is undecided")
+	run.Rule("kept-state-inventory", "every reference-typed field that a method of the package creates on first use and keeps (if x.f == nil / len(x.f) != n { x.f = ... }, or x.f.Store/CompareAndSwap on a sync/atomic cell) is in the inventory of kept state with the rule that covers its contents; an unlisted one is undecided")
 	lints.LazyState(p, run, pkgs, keptState)
 }
 
